@@ -530,7 +530,7 @@ class Interp:
                 if "int" in x:
                     return Int(bv.const(int(x["int"]), x["bits"]))
                 if "variant" in x:
-                    return Enum(x["variant"], ())
+                    return Enum(x["variant"], [conv0(y) for y in x.get("payload", [])])
                 if "fields" in x:
                     return Agg([conv0(y) for y in x["fields"]])
                 if "elems" in x:
@@ -544,7 +544,7 @@ class Interp:
                     if "int" in x:
                         return Int(bv.const(int(x["int"]), x["bits"]))
                     if "variant" in x:
-                        return Enum(x["variant"], ())
+                        return Enum(x["variant"], [conv(y) for y in x.get("payload", [])])
                     if "fields" in x:
                         return Agg([conv(y) for y in x["fields"]])
                     if "elems" in x:
@@ -1235,6 +1235,22 @@ class Interp:
                     tmp = ("tmpenv", st.count("tmpenv"))
                     st.mem[tmp] = args[0]
                     args[0] = Ref(tmp, ())
+        # a call through a function pointer (`let h: fn(..) = match x { .. => Cpu::a, .. }; h(..)`): the pointer's value decides the callee
+        if path is None and cal.get("ikind") == "indirect" and t.get("func") is not None:
+            fv = self.operand(st, fr, t["func"])
+            d_ = 3
+            while isinstance(fv, Ref) and d_ > 0:
+                fv = self.read_loc(st, fv.root, fv.path)
+                d_ -= 1
+            if isinstance(fv, Opaque) and fv.tag == "fn":
+                cand = fv.data if fv.data in self.f.bodies else self.fn_full.get(fv.data)
+                if cand in self.f.bodies:
+                    path = cand
+                    cal = dict(cal)
+                    cal["resolved"] = True
+                    cal["path"] = cand
+                    t = dict(t)
+                    t["callee"] = cal
         prim = self.primitives.get(path)
         if prim is not None:
             return self._dispatch_outcomes(st, prim(self, st, fr, t, args), dest, target, fr, t)
